@@ -31,11 +31,39 @@ def chunks_for(body, text):
     return [c.decode("utf-8") for c in cs] if text else cs
 
 
-def run(cfg, faults=None, keep_events=True):
+def run_killed(cfg, kill_at):
+    """Really die: fork, SIGKILL the child right before (or after) its kill_at-th file-system event, and look at
+    the directory from the parent. Returns the parent's view, or None if the run had fewer events."""
+    import signal
+    d = os.path.realpath(tempfile.mkdtemp(prefix="asavek-"))
+    try:
+        pid = os.fork()
+        if pid == 0:
+            try:
+                run(cfg, None, workdir=d, kill_at=kill_at)
+            finally:
+                os._exit(0)
+        _, status = os.waitpid(pid, 0)
+        killed = os.WIFSIGNALED(status) and os.WTERMSIG(status) == signal.SIGKILL
+        dest = os.path.join(d, "dest.txt")
+        chunks = chunks_for(cfg["body"], cfg["text_mode"])
+        new = b"".join(c.encode("utf-8") if isinstance(c, str) else c for c in chunks)
+        try:
+            with open(dest, "rb") as f:
+                data = f.read()
+            st = "new" if data == new and data != OLD else "old" if data == OLD else "other"
+        except FileNotFoundError:
+            st = "absent"
+        return {"killed": killed, "dest": st}
+    finally:
+        shutil.rmtree(d, ignore_errors=True)
+
+
+def run(cfg, faults=None, keep_events=True, workdir=None, kill_at=None):
     """cfg: overwrite, overwrite_part, rm_part_on_exc, text_mode, perms (0 = None), umask, dest_present, part_present,
     body, raise_at (-1 none), dest_appears."""
     from boltons import fileutils
-    d = os.path.realpath(tempfile.mkdtemp(prefix="asave-"))
+    d = workdir or os.path.realpath(tempfile.mkdtemp(prefix="asave-"))
     dest = os.path.join(d, "dest.txt")
     part = dest + ".part"
     old_umask = os.umask(cfg["umask"])
@@ -75,6 +103,7 @@ def run(cfg, faults=None, keep_events=True):
             kw["file_perms"] = cfg["perms"]
         raised, body_raised = "", False
         ip = fsio.Interposer(d, classify, faults)
+        ip.kill_at = kill_at
         with ip:
             try:
                 with fileutils.atomic_save(dest, **kw) as f:
@@ -114,4 +143,5 @@ def run(cfg, faults=None, keep_events=True):
         return tr
     finally:
         os.umask(old_umask)
-        shutil.rmtree(d, ignore_errors=True)
+        if workdir is None:
+            shutil.rmtree(d, ignore_errors=True)
